@@ -8,7 +8,7 @@ CONSTANTS
   MaxNpts = 5
   Acts = {"CvSplit"}
   PtKinds = {"gen"}
-  WtKinds = {"none", "gen"}
+  WtKinds = {"none", "gen", "const"}
   ExtraNodes <- Extra0
   NodeSize = 2
   Scenario = "single"
